@@ -1,270 +1,38 @@
 import DcVerif.Spec.Window
-/-! Model for C07: the four storages behind `SlidingWindow`
-(`dcl_data_structures/src/window_type/{mod,storage}.rs`, `storage_safe/{storage_array,storage_vec}.rs`,
-`storage_unsafe/{unsafe_storage_array,unsafe_storage_vec}.rs`), transcribed function by function.
+import DcVerif.Gen.Window
+/-! Model for C07. The storages themselves — constructors, `push`, `rewind`, every accessor, the trait's default
+methods and the dispatch over the storage kind — are **generated** from the Rust source
+(`Gen/Window.lean`, written by `tools/rs2lean_window.py` on every check run; vocabulary in `Model/WindowPrim.lean`).
+What is written by hand here is only how a test case uses them: construct, push a history, observe everything.
 
-Conventions
-* the over-allocated buffer is a `List α` of length `cap`; `head`/`tail` are the window bounds inside it;
-* `copy_within(s..s+len, 0)`, `ptr::copy` and `ptr::copy_nonoverlapping` towards the front are `copyFront`
-  (memmove); the unsafe array copies in 16-byte chunks front to back with destination below source, which moves the
-  same bytes as one memmove, so the element type does not appear in the model;
-* every indexing of safe code is bounds-checked (`panic`), every `-` on a `usize` is overflow-checked (`panic`; the
-  harness is built with overflow checks), `saturating_sub` is truncated subtraction;
-* every unchecked operation (`get_unchecked[_mut]`, `unchecked_sub`, `from_raw_parts`, `copy_nonoverlapping`) whose
-  precondition is violated yields `ub`.
-The theorems of `Props/C07.lean` show that under the hypotheses of the property neither `panic` nor `ub` is reachable. -/
+`Kind.vec` is `storage_vec.rs` as it is in the repository, `Kind.vecFixed` the same file with
+`fixes/F1-window-vec.diff` applied (by the translator, in memory); `tsz` is `size_of::<T>()`, which the unsafe array
+storage branches on. The theorems of `Props/C07.lean` show that under the hypotheses of the property neither `panic` nor
+`ub` is reachable. -/
 namespace Model.Window
+export Gen.Window (Kind new push first last size empty filled slice vec arr)
 
 variable {α : Type}
 
-/-- outcome of a call -/
-inductive Out (β : Type) where
-  | ok (b : β)   -- returned normally (`Ok(b)` for the fallible accessors)
-  | err          -- `Err(String)`
-  | panic        -- bounds check / overflow check / `assert!` failed
-  | ub           -- precondition of an unchecked operation violated
-deriving DecidableEq, Repr
-
-/-- which storage; `vecFixed` is `storage_vec.rs` after `fixes/F1-window-vec.diff` (not the code in the repository) -/
-inductive Kind where
-  | arr | vec | uarr | uvec | vecFixed
-deriving DecidableEq, Repr
-
-structure St (α : Type) where
-  buf  : List α
-  size : Nat
-  cap  : Nat
-  head : Nat
-  tail : Nat
-deriving DecidableEq, Repr
-
-/-- memmove of `len` elements from index `s` to the front -/
-def copyFront (buf : List α) (s len : Nat) : List α :=
-  let seg := (buf.drop s).take len
-  seg ++ buf.drop seg.length
-
-def init (size cap : Nat) (d : α) : St α :=
-  { buf := List.replicate cap d, size := size, cap := cap, head := 0, tail := 0 }
-
-/-- the constructors: `c` is CAPACITY for the array storages and `multiple` for the vector storages -/
-def new (k : Kind) (size c : Nat) (d : α) : Out (St α) :=
-  match k with
-  | .arr | .uarr => if c > size then .ok (init size c d) else .panic     -- assert!(CAPACITY > SIZE)
-  | .vec | .uvec | .vecFixed => .ok (init size (size * c) d)              -- capacity = size * multiple
-
-/-! ## push -/
-
-/-- `ArrayStorage::rewind` -/
-def rewindArr (w : St α) : Out (St α) :=
-  let start := w.tail - w.size                   -- tail.saturating_sub(size)
-  let windowSize := w.tail - start               -- start ≤ tail: no overflow
-  if w.tail > w.buf.length then .panic           -- copy_within(start..tail, 0): range end out of bounds
-  else .ok { w with buf := copyFront w.buf start windowSize, head := 0, tail := windowSize }
-
-/-- `ArrayStorage::push` after the optional rewind -/
-def storeArr (w : St α) (v : α) : Out (St α) :=
-  if w.tail ≥ w.buf.length then .panic           -- arr[tail] = value
-  else
-    let tail := w.tail + 1
-    .ok { w with buf := w.buf.set w.tail v, tail := tail,
-                 head := if tail ≥ w.size then tail - w.size else w.head }
-
-/-- `storage_array.rs` -/
-def pushArr (w : St α) (v : α) : Out (St α) :=
-  if w.tail ≥ w.cap then
-    match rewindArr w with
-    | .ok w' => storeArr w' v
-    | o => o
-  else storeArr w v
-
-/-- `storage_vec.rs` as it is in the repository (defect F1: the slow path leaves `head = 0`) -/
-def pushVec (w : St α) (v : α) : Out (St α) :=
-  if w.tail < w.cap then
-    if w.tail ≥ w.buf.length then .panic         -- vec[tail] = value
-    else
-      let tail := w.tail + 1
-      if tail < w.head then .panic               -- tail - head
-      else .ok { w with buf := w.buf.set w.tail v, tail := tail,
-                        head := if tail - w.head > w.size then w.head + 1 else w.head }
-  else
-    if w.head + w.size > w.buf.length then .panic        -- copy_within(head..head + size, 0)
-    else
-      let buf := copyFront w.buf w.head w.size
-      if w.size ≥ buf.length then .panic                 -- vec[tail] = value, tail = size
-      else .ok { w with buf := buf.set w.size v, head := 0, tail := w.size + 1 }
-
-/-- `storage_vec.rs` after `fixes/F1-window-vec.diff`: the slow path ends like the fast path -/
-def pushVecFixed (w : St α) (v : α) : Out (St α) :=
-  if w.tail < w.cap then
-    if w.tail ≥ w.buf.length then .panic
-    else
-      let tail := w.tail + 1
-      if tail < w.head then .panic
-      else .ok { w with buf := w.buf.set w.tail v, tail := tail,
-                        head := if tail - w.head > w.size then w.head + 1 else w.head }
-  else
-    if w.head + w.size > w.buf.length then .panic
-    else
-      let buf := copyFront w.buf w.head w.size
-      if w.size ≥ buf.length then .panic
-      else
-        let tail := w.size + 1
-        .ok { w with buf := buf.set w.size v, tail := tail,
-                     head := if tail - 0 > w.size then 0 + 1 else 0 }
-
-/-- `unsafe_storage_vec.rs` -/
-def pushUVec (w : St α) (v : α) : Out (St α) :=
-  if w.tail < w.cap then
-    if w.tail ≥ w.buf.length then .ub            -- get_unchecked_mut(tail)
-    else
-      let tail := w.tail + 1
-      if tail < w.head then .panic               -- tail - head (plain subtraction inside the unsafe block)
-      else .ok { w with buf := w.buf.set w.tail v, tail := tail,
-                        head := w.head + (if tail - w.head > w.size then 1 else 0) }
-  else
-    -- copy_nonoverlapping(ptr + head, ptr, size)
-    if w.head + w.size > w.buf.length then .ub           -- source range leaves the allocation
-    else if 0 < w.size ∧ w.head < w.size then .ub        -- source and destination overlap
-    else
-      let buf := copyFront w.buf w.head w.size
-      if w.size ≥ buf.length then .ub                    -- get_unchecked_mut(tail), tail = size
-      else
-        let tail := w.size + 1
-        .ok { w with buf := buf.set w.size v, tail := tail,
-                     head := 0 + (if tail - 0 > w.size then 1 else 0) }
-
-/-- `UnsafeArrayStorage::rewind` (with `ptr::copy`, i.e. after `fixes/F10-window-unsafe-array.diff`; before it the
-calls were `copy_nonoverlapping`, undefined for the overlapping ranges of CAPACITY < 2·SIZE) -/
-def rewindUArr (w : St α) : Out (St α) :=
-  if w.tail < w.size then .panic                 -- tail - size
-  else if w.tail > w.buf.length then .ub         -- source range [tail - size, tail) leaves the array
-  else .ok { w with buf := copyFront w.buf (w.tail - w.size) w.size, head := 0, tail := w.size }
-
-/-- `UnsafeArrayStorage::push` after the optional rewind -/
-def storeUArr (w : St α) (v : α) : Out (St α) :=
-  if w.tail ≥ w.buf.length then .ub              -- get_unchecked_mut(tail)
-  else
-    let tail := w.tail + 1                       -- wrapping_add(1)
-    if tail < w.head then .ub                    -- tail.unchecked_sub(head)
-    else if tail - w.head > w.size then
-      if tail < w.size then .ub                  -- tail.unchecked_sub(size)
-      else .ok { w with buf := w.buf.set w.tail v, tail := tail, head := tail - w.size }
-    else .ok { w with buf := w.buf.set w.tail v, tail := tail }
-
-/-- `unsafe_storage_array.rs` -/
-def pushUArr (w : St α) (v : α) : Out (St α) :=
-  if w.tail ≥ w.cap then
-    match rewindUArr w with
-    | .ok w' => storeUArr w' v
-    | o => o
-  else storeUArr w v
-
-def push (k : Kind) (w : St α) (v : α) : Out (St α) :=
-  match k with
-  | .arr => pushArr w v
-  | .vec => pushVec w v
-  | .uarr => pushUArr w v
-  | .uvec => pushUVec w v
-  | .vecFixed => pushVecFixed w v
-
 /-- a push history, oldest first -/
-def run (k : Kind) (w : St α) : List α → Out (St α)
+def run (k : Kind) (tsz : Nat) (w : St α) : List α → Out (St α)
   | [] => .ok w
   | x :: xs =>
-    match push k w x with
-    | .ok w' => run k w' xs
+    match push k tsz w x with
+    | .ok w' => run k tsz w' xs
     | o => o
 
-/-- construct, then push `xs` -/
-def history (k : Kind) (size c : Nat) (d : α) (xs : List α) : Out (St α) :=
+/-- construct, then push `xs`; `c` is CAPACITY for the array storages and `multiple` for the vector storages -/
+def history (k : Kind) (tsz : Nat) (size c : Nat) (d : α) (xs : List α) : Out (St α) :=
   match new k size c d with
-  | .ok w => run k w xs
+  | .ok w => run k tsz w xs
   | o => o
-
-/-! ## accessors -/
-
-/-- `SlidingWindow::size` -/
-def size (w : St α) : Nat := w.size
-
-/-- `SlidingWindow::empty`: the trait default, `tail() == 0`, for all four storages -/
-def empty (w : St α) : Bool := w.tail == 0
-
-/-- `SlidingWindow::filled`, i.e. the *trait* method: overridden by the safe array (`tail.saturating_sub(head) >= size`)
-and by both vector storages (`tail >= size`); the unsafe array does not override it (its `filled` is an inherent
-method), so the trait default `tail() >= size()` answers -/
-def filled (k : Kind) (w : St α) : Bool :=
-  match k with
-  | .arr => decide (w.tail - w.head ≥ w.size)
-  | .vec | .uvec | .vecFixed | .uarr => decide (w.tail ≥ w.size)
-
-/-- the `filled()` that `last()` calls inside the storage: for the unsafe array this is the inherent method
-`tail.unchecked_sub(head) >= size` -/
-def filledForLast (k : Kind) (w : St α) : Out Bool :=
-  match k with
-  | .uarr => if w.tail < w.head then .ub else .ok (decide (w.tail - w.head ≥ w.size))
-  | _ => .ok (filled k w)
-
-/-- an indexing `buf[i]` (safe storages) or `*buf.get_unchecked(i)` (unsafe storages) -/
-def index (k : Kind) (buf : List α) (i : Nat) : Out α :=
-  match buf[i]? with
-  | some x => .ok x
-  | none => match k with
-    | .uarr | .uvec => .ub
-    | _ => .panic
-
-/-- `first()` -/
-def first (k : Kind) (w : St α) : Out α :=
-  if w.tail = 0 then .err else index k w.buf w.head
-
-/-- `last()` -/
-def last (k : Kind) (w : St α) : Out α :=
-  match filledForLast k w with
-  | .ok true =>
-    if w.tail = 0 then .panic                    -- tail - 1
-    else index k w.buf (w.tail - 1)
-  | .ok false => .err
-  | .err => .err
-  | .panic => .panic
-  | .ub => .ub
-
-/-- `get_slice()` -/
-def getSlice (k : Kind) (w : St α) : Out (List α) :=
-  match k with
-  | .arr | .vec | .vecFixed =>                   -- &buf[head..tail]
-    if w.head > w.tail ∨ w.tail > w.buf.length then .panic
-    else .ok ((w.buf.drop w.head).take (w.tail - w.head))
-  | .uvec =>                                     -- buf.get_unchecked(head..tail)
-    if w.head > w.tail ∨ w.tail > w.buf.length then .ub
-    else .ok ((w.buf.drop w.head).take (w.tail - w.head))
-  | .uarr =>                                     -- from_raw_parts(ptr + head, tail.saturating_sub(head).min(size))
-    let len := min (w.tail - w.head) w.size
-    if w.head + len > w.buf.length then .ub
-    else .ok ((w.buf.drop w.head).take len)
-
-/-- `slice()` (trait default) -/
-def slice (k : Kind) (w : St α) : Out (List α) :=
-  if filled k w then getSlice k w else .err
-
-/-- `vec()` (trait default): `get_slice().to_vec()` -/
-def vec (k : Kind) (w : St α) : Out (List α) :=
-  if filled k w then getSlice k w else .err
-
-/-- `arr::<S>()` (trait default): `[default; S]` with `arr[..size] = slice[..size]` -/
-def arr (k : Kind) (w : St α) (s : Nat) (d : α) : Out (List α) :=
-  if filled k w then
-    match getSlice k w with
-    | .ok sl =>
-      if w.size > s then .panic                  -- arr[..size]
-      else if w.size > sl.length then .panic     -- slice[..size]
-      else .ok (sl.take w.size ++ List.replicate (s - w.size) d)
-    | o => o
-  else .err
 
 /-- everything observable through `SlidingWindow`, `arr` at width `size` -/
 structure Obs (α : Type) where
-  size : Nat
-  empty : Bool
-  filled : Bool
+  size : Out Nat
+  empty : Out Bool
+  filled : Out Bool
   first : Out α
   last : Out α
   slice : Out (List α)
@@ -272,9 +40,9 @@ structure Obs (α : Type) where
   arr : Out (List α)
 deriving DecidableEq, Repr
 
-def observe (k : Kind) (w : St α) (d : α) : Obs α :=
-  { size := size w, empty := empty w, filled := filled k w, first := first k w, last := last k w,
-    slice := slice k w, vec := vec k w, arr := arr k w w.size d }
+def observe (k : Kind) (tsz : Nat) (w : St α) (d : α) : Obs α :=
+  { size := size k tsz w, empty := empty k tsz w, filled := filled k tsz w, first := first k tsz w,
+    last := last k tsz w, slice := slice k tsz w, vec := vec k tsz w, arr := arr k tsz w w.size d }
 
 /-- the specification's answers in the model's vocabulary: `none` is `Err(_)` -/
 def ofSpec {β : Type} : Option β → Out β
@@ -282,7 +50,7 @@ def ofSpec {β : Type} : Option β → Out β
   | none => .err
 
 def Obs.ofSpec (o : Spec.Window.Obs α) : Obs α :=
-  { size := o.size, empty := o.empty, filled := o.filled, first := Model.Window.ofSpec o.first,
+  { size := .ok o.size, empty := .ok o.empty, filled := .ok o.filled, first := Model.Window.ofSpec o.first,
     last := Model.Window.ofSpec o.last, slice := Model.Window.ofSpec o.slice, vec := Model.Window.ofSpec o.vec,
     arr := Model.Window.ofSpec o.arr }
 
